@@ -463,6 +463,8 @@ func genC12(t *rapid.T) *Bundle {
 			"SELECT id, (SELECT * FROM `<-` AS p GROUP BY p.id) AS s FROM %s",
 			"SELECT id, (SELECT (SELECT `*` AS g FROM `<-` AS p GROUP BY p.id) AS s2 FROM dual) AS s FROM %s",
 			"SELECT id, (SELECT p FROM `<-` AS p GROUP BY p) AS s FROM %s",
+			// ... and a row-scoped subquery whose AWAIT defers the clean-up of a nested `*` row to the enclosing query
+			"SELECT id, (SELECT AWAIT((SELECT * FROM dual)) AS x FROM `<-"+root+"u`) AS y FROM %s",
 			"SELECT id, (SELECT * FROM `<-` GROUP BY id) AS s FROM %s",
 			"SELECT id, (SELECT (SELECT * FROM `<-` GROUP BY id) AS s2 FROM dual) AS s FROM %s"), T)
 		if rapid.IntRange(0, 2).Draw(t, "scope_dual") == 0 {
